@@ -19,10 +19,9 @@ Lemma consts_ok :
   Consts.zmodem_cancel_full = [24; 24; 24; 24; 24; 24; 24; 24; 24; 24; 8; 8; 8; 8; 8; 8; 8; 8; 8; 8] /\
   Consts.zmodem_over_and_out = [79; 79; 8; 8] /\
   Consts.zmodem_cannot_open = [99; 97; 110; 110; 111; 116; 32; 111; 112; 101; 110; 32] /\
-  Consts.zmodem_cleanup_enter = [13] /\ Consts.zmodem_ctrl_c = 3 /\
-  Consts.zmodem_cleanup_ms = 500 /\ Consts.zmodem_kill_delay_ms = 500 /\ Consts.zmodem_launch_delay_ms = 100 /\
-  Consts.zmodem_client_timeout_ms = 20000 /\ Consts.zmodem_server_timeout_ms = 20000 /\
-  Consts.zmodem_finish_max_len = 50.
+  Consts.zmodem_cleanup_enter = [13] /\ Consts.zmodem_ctrl_c = 3.
+(* the delays (500 ms / 20 s / 100 ms) and the length bound 50 are NOT pinned: the model and
+   the correspondence follow whatever the source says *)
 Proof. repeat split; reflexivity. Qed.
 
 (* ---- the effect skeleton of every function the model transcribes (with the fix) ---- *)
@@ -584,6 +583,11 @@ Lemma unfixed_reaches_stuck :
   fst (run_unfixed idle (stuck_events LaunchFail)) = stuck_state /\
   fst (run_unfixed idle (stuck_events ChooserErr)) = stuck_state.
 Proof. split; vm_compute; reflexivity. Qed.
+
+(* a second way into the same state: Ctrl-C before the helper has been started *)
+Lemma unfixed_reaches_stuck_ctrl_c :
+  fst (run_unfixed idle [EvServer hdr_download; EvInput [Consts.zmodem_ctrl_c]; EvLaunch LaunchOk]) = stuck_state.
+Proof. vm_compute; reflexivity. Qed.
 
 Lemma stuck_not_settled : stopped (zs stuck_state) = true /\ ~ settled (zs stuck_state).
 Proof.
